@@ -12,8 +12,11 @@ import (
 	"errors"
 	"fmt"
 	"io"
+	"io/fs"
 	"sort"
 	"sync"
+	"sync/atomic"
+	"time"
 )
 
 // Object and call kinds; their numeric order is the canonical order of the
@@ -259,6 +262,8 @@ type FileCfg struct {
 	Fill                          int    // bytes of filler produced after Data
 	FillPat                       string // repeated to make the filler
 	GateRead, GateClose, GateName bool
+	CloseErr                      bool // Close returns an error
+	StatSize                      int  // size reported by Stat: >0 a (possibly stale) size, 0 = the true size, <0 = Stat fails
 }
 
 // SimFile implements bcl.FileInput.
@@ -289,6 +294,7 @@ type SimFile struct {
 	ChunkEnds      []int // offsets (in Data+filler) at which delivered chunks ended
 	ReadsAt        []int // Delivered after each returned read (for I5)
 	closed         bool
+	StatCalls      int
 }
 
 func NewSimFile(s *Sched, cfg FileCfg) *SimFile {
@@ -411,10 +417,43 @@ func (f *SimFile) Close() error {
 	f.closed = true
 	f.mu.Unlock()
 	if f.s != nil {
-		f.s.Log(Event{Obj: OFile, Kind: KClose, Seq: seq})
+		f.s.Log(Event{Obj: OFile, Kind: KClose, Seq: seq, Err: f.cfg.CloseErr})
+	}
+	if f.cfg.CloseErr {
+		return ErrClose
 	}
 	return nil
 }
+
+var ErrClose = errors.New("simio: close failed")
+
+// Stat makes the simulated file look like a regular file whose metadata may be stale (the
+// file grew after the size was taken): nothing may depend on it instead of reading to EOF.
+func (f *SimFile) Stat() (fs.FileInfo, error) {
+	f.mu.Lock()
+	f.StatCalls++
+	f.mu.Unlock()
+	if f.cfg.StatSize < 0 {
+		return nil, errors.New("simio: stat failed")
+	}
+	size := f.cfg.StatSize
+	if size == 0 {
+		size = f.total()
+	}
+	return simInfo{name: f.cfg.Name, size: int64(size)}, nil
+}
+
+type simInfo struct {
+	name string
+	size int64
+}
+
+func (i simInfo) Name() string       { return i.name }
+func (i simInfo) Size() int64        { return i.size }
+func (i simInfo) Mode() fs.FileMode  { return 0o644 }
+func (i simInfo) ModTime() time.Time { return time.Time{} }
+func (i simInfo) IsDir() bool        { return false }
+func (i simInfo) Sys() any           { return nil }
 
 func (f *SimFile) Name() string {
 	f.mu.Lock()
@@ -473,6 +512,15 @@ type SimWriter struct {
 	seq   int
 	buf   []byte
 	calls int
+	// Returned is set by the harness when the call under test has returned to its caller;
+	// a Write that starts afterwards comes from a goroutine the call left behind.
+	Returned   *atomic.Bool
+	LateWrites atomic.Int32
+	// Raw: the buffer is appended to without any lock, like the bytes.Buffer a caller would
+	// pass; the caller reads it right after the call returns. Only the race detector can tell
+	// whether the library still writes at that time.
+	Raw    bool
+	RawBuf []byte
 }
 
 func NewSimWriter(s *Sched, obj int, gated bool) *SimWriter {
@@ -480,6 +528,13 @@ func NewSimWriter(s *Sched, obj int, gated bool) *SimWriter {
 }
 
 func (w *SimWriter) Write(p []byte) (int, error) {
+	if w.Returned != nil && w.Returned.Load() {
+		w.LateWrites.Add(1)
+	}
+	if w.Raw {
+		w.RawBuf = append(w.RawBuf, p...)
+		return len(p), nil
+	}
 	w.mu.Lock()
 	w.seq++
 	seq := w.seq
@@ -507,12 +562,18 @@ func (w *SimWriter) Ungate() {
 }
 
 func (w *SimWriter) String() string {
+	if w.Raw {
+		return string(w.RawBuf)
+	}
 	w.mu.Lock()
 	defer w.mu.Unlock()
 	return string(w.buf)
 }
 
 func (w *SimWriter) Len() int {
+	if w.Raw {
+		return len(w.RawBuf)
+	}
 	w.mu.Lock()
 	defer w.mu.Unlock()
 	return len(w.buf)
@@ -530,6 +591,7 @@ type SimReader struct {
 	MaxZero   int // consecutive zero reads are capped (io.Reader contract discourages them)
 	zrun      int
 	Ends      []int
+	EndErr    error // what the reader reports where the stored bytes end (nil: io.EOF)
 }
 
 func (r *SimReader) Read(p []byte) (int, error) {
@@ -559,11 +621,15 @@ func (r *SimReader) Read(p []byte) (int, error) {
 		r.Ends = append(r.Ends, r.off)
 	}
 	if n == remaining {
+		end := r.EndErr
+		if end == nil {
+			end = io.EOF
+		}
 		if n == 0 {
-			return 0, io.EOF
+			return 0, end
 		}
 		if st.EOF {
-			return n, io.EOF
+			return n, end
 		}
 	}
 	return n, nil
